@@ -3,6 +3,7 @@
 
   selftest/matrix.py [--jobs 3] [--only C01-m1,...] [--checks C01,C02,...] [--with-c04 C01,C02,...]
   selftest/matrix.py --related 1 [--jobs 3]      own check plus the checks of neighbouring properties only (RELATED)
+  selftest/matrix.py --own 1 [--jobs 3]          the check of the property the break was written against only
 
 Results go into seeded/<id>/meta.json ("checks") and seeded/MATRIX.md."""
 import concurrent.futures as cf
@@ -49,6 +50,7 @@ def main():
     checks = [c for c in ALL if c != "C04"]
     with_c04 = ["C01", "C02", "C03", "C04", "C07", "C11", "C12", "C20"]
     related = False
+    own = False
     i = 0
     while i < len(args):
         if args[i] == "--jobs":
@@ -59,6 +61,8 @@ def main():
             checks = args[i + 1].split(",")
         elif args[i] == "--related":
             related = True
+        elif args[i] == "--own":
+            own = True
         elif args[i] == "--with-c04":
             with_c04 = [x for x in args[i + 1].split(",") if x]
         i += 2
@@ -69,7 +73,9 @@ def main():
     for d in dirs:
         prop = os.path.basename(d).split("-")[0]
         cs = list(checks)
-        if related:
+        if own:
+            cs = [prop]
+        elif related:
             cs = list(RELATED[prop])
         elif prop in with_c04 and "C04" not in cs:
             cs.append("C04")
